@@ -626,6 +626,11 @@ def run(chk, facts, info):
     rule_unused(chk, facts)
     rule_funcargs(chk, facts)
     rule_radix_marker(chk, facts)
+    chk.rule('C08-R11', 'operator.c/function.c: an operand value is narrowed into the 8-bit Boolean type (variable, parameter or '
+             'return value) only after it has been turned into a truth value (!= 0, comparison): "an expression is TRUE in '
+             'case it is not 0" also for 256, 65536, ... (today no such narrowing exists in these files: the operators compare with 0 and pass the '
+             'wide result on; the seeded-break corpus holds the positive example)', min_instances=0)
+    boolean_store_rule(chk, facts.program('asl'), 'C08-R11', lambda u: u in ('operator.c', 'function.c'))
     chk.rule('C08-R10', 'function.c/asmpars.c: a character of a string operand that becomes a number (CHARFROMSTR, '
              'multi-character constants) is converted to unsigned char before it is widened', min_instances=1)
     n10 = string_char_rule(chk, facts.program('asl'), 'C08-R10', lambda u: u in ('function.c', 'asmpars.c', 'operator.c'))
